@@ -120,12 +120,16 @@ class key_address_native:
                 except Exception:
                     pass
             o = opts[choice % len(opts)]
-            return k.address(**o), o, k.public_compressed_byte, k.public_uncompressed_byte
+            a = k.address(**o)
+            # the key's own hash (first read AFTER the address request): the hash of the key form the object now stands for, the one its address encodes
+            return a, o, k.public_compressed_byte, k.public_uncompressed_byte, k.hash160, k.compressed
         return run, [], {}
 
     def ensures(secret, choice, earlier, result):
-        addr, o, pc, pu = result
+        addr, o, pc, pu, h160, comp = result
         data = pu if o.get('compressed') is False else pc
+        if comp != (o.get('compressed') is not False) or h160 != bip32.hash160(data):
+            return False
         if o.get('encoding') == 'bech32':
             return addr == b32.encode('bc', 0, list(bip32.hash160(data)))
         if o.get('script_type') == 'p2sh_p2wpkh':
